@@ -6,7 +6,7 @@ from collections.abc import Mapping
 from typing import TYPE_CHECKING, Any, Literal
 
 import zarr
-from pydantic import BaseModel, Field, model_validator, validate_call
+from pydantic import BaseModel, Field, ValidationError, model_validator, validate_call
 from pydantic.config import ConfigDict
 from zarr.storage import StoreLike
 
@@ -304,6 +304,20 @@ class GeffMetadata(BaseModel):
             _validate_key_identifier_equality(self.edge_props_metadata, "edge")
 
         return self
+
+    def __setattr__(self, name: str, value: Any) -> None:
+        # With `validate_assignment`, pydantic stores the new value *before* it runs
+        # the `mode="after"` validator, so an assignment rejected by that validator
+        # would stay in the object. Restore the previous state to keep a failed
+        # assignment from leaving invalid metadata behind.
+        old_dict = dict(self.__dict__)
+        old_fields_set = set(self.__pydantic_fields_set__)
+        try:
+            super().__setattr__(name, value)
+        except ValidationError:
+            object.__setattr__(self, "__dict__", old_dict)
+            object.__setattr__(self, "__pydantic_fields_set__", old_fields_set)
+            raise
 
     def write(self, store: StoreLike) -> None:
         """Helper function to write GeffMetadata into the group of a zarr geff store.
